@@ -46,15 +46,17 @@ def default_cfg(features=('std',)):
     return dict(features=set(features), flags=set())
 
 
-def build_unit(unit, cfg=None, suffix='', mutate=None):
+def build_unit(unit, cfg=None, suffix='', mutate=None, canary=False, canary_at_start=(), outdir=None):
     """extract -> build/<unit><suffix>.rs ; returns (path, extractor)"""
     cfg = cfg or default_cfg()
-    os.makedirs(BUILD, exist_ok=True)
-    ex = Extractor(REPO, VERIF, cfg, expanded_provider=lambda: expanded_source(REPO, os.path.join(BUILD, 'cache')))
+    outdir = outdir or BUILD
+    os.makedirs(outdir, exist_ok=True)
+    ex = Extractor(REPO, VERIF, cfg, expanded_provider=lambda: expanded_source(REPO, os.path.join(BUILD, 'cache')),
+                   canary=canary, canary_at_start=canary_at_start)
     text = ex.run(os.path.join(VERIF, 'contracts', unit + '.vrs'))
     if mutate:
         text = mutate(text, ex)
-    path = os.path.join(BUILD, unit + suffix + '.rs')
+    path = os.path.join(outdir, unit + suffix + ('-canary' if canary else '') + '.rs')
     with open(path, 'w') as f:
         f.write(text)
     return path, ex
@@ -72,12 +74,13 @@ def scan_assumptions(text):
     return {k: len(re.findall(p, code)) for k, p in pats.items()}
 
 
-def run_verus(path, ex, name, rlimit=None, seed=None, timeout=900, extra=()):
+def run_verus(path, ex, name, rlimit=None, seed=None, timeout=900, extra=(), multiple_errors=50):
     res = UnitResult(name)
     res.path = path
     res.log = ex.log
     res.obligation_items = list(ex.obligation_items)
-    cmd = ['verus', path, '--output-json', '--time', '--multiple-errors', '50', '--error-format=json',
+    res.origin = ex.out.origin
+    cmd = ['verus', path, '--output-json', '--time', '--multiple-errors', str(multiple_errors), '--error-format=json',
            '--triggers-mode', 'silent']
     if rlimit:
         cmd += ['--rlimit', str(rlimit)]
@@ -180,9 +183,9 @@ def norm_ws(s):
     return ' '.join(s.split())
 
 
-def verify_unit(unit, cfg=None, suffix='', **kw):
+def verify_unit(unit, cfg=None, suffix='', canary=False, canary_at_start=(), outdir=None, **kw):
     try:
-        path, ex = build_unit(unit, cfg, suffix)
+        path, ex = build_unit(unit, cfg, suffix, canary=canary, canary_at_start=canary_at_start, outdir=outdir)
     except LostAnchor as e:
         r = UnitResult(unit + suffix)
         r.status, r.reason = 'undecided', 'extraction: %s' % e
